@@ -129,6 +129,20 @@ pub fn run(ctx: &Ctx) {
                     if calls2.len() != k + 1 {
                         rep.disagreement(&format!("c16.{}.{op}.calls-after-failure", b.name), format!("{} {op}: {} calls made although draw {k} failed (model: {})", b.name, calls2.len(), k + 1), fcase.clone());
                     }
+                    // ... and when the source stays dead from draw k on
+                    rep.evaluations += 1;
+                    rng::set_mode(Mode::FailFrom { prng: SplitMix64::new(g.next()), from: k });
+                    let r = run_one(b, op, &fx);
+                    let (calls3, _) = rng::take_log();
+                    let dcase = json!({"backend": b.name, "op": op, "what": format!("fail from draw {k} on")});
+                    match &r {
+                        Err(e) if e == "CryptoError" => rep.nontrivial(format!("{}|{op}|dead@{k}", b.name)),
+                        Ok(o) => rep.violation(&format!("c16.{}.{op}.not-fail-closed", b.name), format!("{} {op} produced an output although the random source failed from draw {k} on: {}", b.name, &o[..o.len().min(80)]), dcase.clone()),
+                        Err(e) => rep.violation(&format!("c16.{}.{op}.fail-error", b.name), format!("{} {op}: RNG failure from draw {k} on reported as {e}", b.name), dcase.clone()),
+                    }
+                    if calls3.len() != k + 1 {
+                        rep.disagreement(&format!("c16.{}.{op}.calls-after-failure", b.name), format!("{} {op}: {} calls made although the source was dead from draw {k} (model: {})", b.name, calls3.len(), k + 1), dcase);
+                    }
                     // the next operation behaves normally
                     rng::set_mode(Mode::Os);
                     if run_one(b, op, &fx).is_err() {
